@@ -40,7 +40,8 @@ PY
   if echo "$res" | grep -q "^VIOLATION"; then echo "CAUGHT $d by $checks: $(echo "$res" | grep -m1 -A1 '^VIOLATION' | tail -1 | cut -c1-120)"; else echo "MISSED $d ($checks)"; fi
 }
 i=0
-for d in seeded/$GLOB; do
+# SEEDLIST (a file with one seed directory per line) overrides the glob
+for d in $( [ -n "${SEEDLIST:-}" ] && cat "$SEEDLIST" || ls -d seeded/$GLOB ); do
   [ -f "$d/meta.json" ] || continue
   i=$((i+1)); k=$(( (i-1) % K + 1 ))
   echo "$d" >> /tmp/sr/list.$k
